@@ -2,23 +2,18 @@
    /repo/eth/protocols/snap/sync.go).  Property theorems only; each is closed by [exact] of a
    lemma of Net/SnapSyncProofs.v about the model Net/SnapSync.v.
 
-   Level: PARTIAL.  Over ALL event histories (any order, duplication, loss of responses, honest or
-   dishonest peers, timeouts, cancel + restart from persisted progress):
-     only_verified_stored, ranges_partition (account tasks), progress_monotone, restart_resumes,
-     complete_implies_equal for the flat ACCOUNT state (both inclusions).
-   The range theorems are stated for histories whose ACCEPTED account-range responses satisfy the range
-   verifier's contract [acc_sound] (C09: keys strictly increasing and >= origin, items are target items,
-   none missing up to the last key, more = false only if the target has no key beyond) - an explicit
-   hypothesis [trace_sound] on the recorded verdicts.  The origin is taken as the Next marker of the
-   task the response fills (the request's origin: Next does not move while a request is outstanding;
-   that identification itself is not proved).
-   NOT proved in Coq (Go oracle + model/implementation correspondence on every run instead):
-     the storage-chunk (sub-task) half of ranges_partition as an all-histories invariant (proved per
-     operation: chunk creation is an exact partition of the slot space, a chunk delivery moves Next forward
-     inside its chunk) and the storage / code inclusion target <= store at completion (the inclusion store <= target IS proved:
-     C47_stored_subset_target_partial); bal_catchup_exact (the access-list catch-up lives in the
-     separate snap/2 syncer, syncv2.go / bal_apply.go, which is not modelled). *)
-From GV Require Import Lib.Tactics Net.SnapSync Net.SnapSyncProofs Net.SnapSyncRanges Net.SnapSyncChunks Net.SnapSyncComplete.
+   Level: PARTIAL (what is partial: the snap/2 syncer with BAL catch-up is not modelled; the verifier is
+   abstract; peers/timers/goroutines are runtime behaviour).  Over ALL event histories (any order,
+   duplication, loss of responses, honest or dishonest peers, timeouts, cancel + restart from persisted
+   progress): only_verified_stored; origin_is_next (an outstanding account request pins its task: Next =
+   the request's origin, no response held, one request per task - no hypothesis on responses); and, for
+   histories whose ACCEPTED responses satisfy the range verifier's contract (explicit hypotheses on the
+   recorded verdicts: [trace_sound] / [trace_sound_o] for account ranges, [sto_trace] /
+   [storage_trace_sound] for storage ranges): ranges_partition for account tasks AND storage chunks,
+   progress_monotone, restart_resumes, complete_implies_equal for accounts, storage and code (both
+   inclusions).  NOT proved / not covered: bal_catchup_exact (snap/2, syncv2.go / bal_apply.go, not
+   modelled); pivot moves; healing. *)
+From GV Require Import Lib.Tactics Net.SnapSync Net.SnapSyncProofs Net.SnapSyncRanges Net.SnapSyncChunks Net.SnapSyncComplete Net.SnapSyncOrigin.
 Local Open Scope N_scope.
 
 (* ---- only_verified_stored: whatever the local flat state holds after ANY event list was an item
@@ -70,8 +65,8 @@ Print Assumptions C47_forward_monotone_partial.
 Example C47_nonvacuous : c47_example_check = true.
 Proof. vm_compute. reflexivity. Qed.
 
-(* ---- complete_implies_equal, soundness half (PARTIAL: the inclusion target <= store at completion
-   is not proved): if the accepted responses of a history carry only target items (verify_sound,
+(* ---- complete_implies_equal, soundness half with abstract target predicates (the full statement is
+   C47_complete_implies_equal_full below): if the accepted responses of a history carry only target items (verify_sound,
    soundness direction), then after ANY history - complete or not - every flat account, slot and code
    of the local store is a target item *)
 Theorem C47_stored_subset_target_partial : forall c root evs
@@ -124,7 +119,7 @@ Theorem C47_progress_monotone : forall (tg : list (N * acct)),
 Proof. exact progress_monotone. Qed.
 Print Assumptions C47_progress_monotone.
 
-(* ---- complete_implies_equal (flat accounts; PARTIAL for storage and code, see the header): under the
+(* ---- complete_implies_equal, flat accounts only (storage and code: C47_complete_implies_equal_full below): under the
    verifier's contract, when no account task is left the flat account state IS the target: a key has a
    body in the store iff it is a target account with that body *)
 Theorem C47_complete_implies_equal_accounts : forall (tg : list (N * acct)),
@@ -164,7 +159,7 @@ Proof. exact restart_resumes. Qed.
 Print Assumptions C47_restart_resumes.
 
 
-(* ---- ranges_partition, storage chunks (PARTIAL: per operation, not lifted to histories).  Chunk splitting
+(* ---- ranges_partition, storage chunks, per operation (the all-histories invariant is C47_chunk_ranges below).  Chunk splitting
    (processStorageResponse + range.go newHashRange/Next/End): whenever the sub-tasks of a large contract are
    created they are consecutive non-empty ranges starting at 0 and ending at 2^256-1 - pairwise disjoint and
    covering the account's whole slot space *)
@@ -275,3 +270,56 @@ Example C47_nonvacuous_storage :
 Proof.
   split; [exact ex_ST_fun|]. split; [exact ex_ST_empty|]. split; [exact ex_ST_bound|exact ex_sto_trace].
 Qed.
+
+(* ---- ranges_partition, storage chunks, over ALL histories (restarts included).  Hypothesis
+   [storage_trace_sound]: every ACCEPTED storage response satisfies [sto_ev] (above) and [ge_ev]: when it
+   answers a chunk request, every delivered key is >= the Next of the addressed chunk - the storage-side
+   "keys >= origin" clause of the range verifier's contract.  NOTE: the real OnStorage does NOT enforce that
+   clause for a proof-less answer to a chunk request (it verifies the whole trie with a nil origin), see
+   checks/C47.json; the theorem is about histories in which peers do not exploit this.  Then for every live
+   account task and every large contract being fetched the chunk ranges [Next, Last] are well formed, inside
+   the slot space, increasing and pairwise disjoint.  (Creation is an exact partition of the slot space:
+   C47_chunks_partition_partial; the sections tg/ST hypotheses and the unused TC argument are artefacts of
+   the Coq section the proof lives in.) *)
+Theorem C47_chunk_ranges : forall (tg : list (N * acct)),
+  (forall k a a', In (k, a) tg -> In (k, a') tg -> a = a') ->
+  forall ST : N -> list (N * bytes),
+  (forall h k v v', In (k, v) (ST h) -> In (k, v') (ST h) -> v = v') ->
+  (forall h a, In (h, a) tg -> a_root a = EMPTY_ROOT -> ST h = []) ->
+  (forall h k v, In (k, v) (ST h) -> k <= MAXH) ->
+  (N -> bytes -> Prop) ->
+  forall (c : config) (root : N) (evs : list event),
+  storage_trace_sound ST c (start c fresh root) evs ->
+  forall t, In t (s_tasks (run c root evs)) ->
+  forall a l, In (a, l) (t_subs t) ->
+  (forall st, In st l -> st_next st <= st_last st <= MAXH) /\
+  (forall l1 st1 l2 st2, l = l1 ++ st1 :: l2 -> In st2 l2 -> st_last st1 < st_next st2).
+Proof. exact chunk_ranges_all. Qed.
+Print Assumptions C47_chunk_ranges.
+
+Example C47_nonvacuous_storage_ge : storage_trace_sound ex_ST ex_cfg (start ex_cfg fresh 1) ex_sound_events.
+Proof. exact ex_storage_trace_sound. Qed.
+
+
+(* ================= the request's origin is the task's Next (Net/SnapSyncOrigin.v) ================= *)
+
+(* ---- q_origin = t_next at delivery, over ALL histories and with NO hypothesis on the responses: every
+   outstanding account-range request pins the task it fills (marked requested, no response held, Next =
+   the request's origin) and no task has two outstanding account requests *)
+Theorem C47_origin_is_next : forall c root evs,
+  1 <= c_acc c <= HSPACE ->
+  let s := run c root evs in
+  (forall q, In q (s_reqs s) -> q_kind q = KAcc -> forall t, In t (s_tasks s) -> t_last t = q_task q ->
+     t_req t = true /\ t_res t = None /\ t_next t = q_origin q) /\
+  NoDup (map q_task (filter kacc (s_reqs s))).
+Proof. exact origin_is_next. Qed.
+Print Assumptions C47_origin_is_next.
+
+(* ---- hence the account-range contract may be stated against the ORIGIN RECORDED IN THE REQUEST
+   ([trace_sound_o]: what trie.VerifyRangeProof is actually called with); it implies [trace_sound], the
+   hypothesis of C47_ranges_partition / C47_progress_monotone / C47_complete_implies_equal* *)
+Theorem C47_trace_sound_from_origin : forall tg c root evs,
+  1 <= c_acc c <= HSPACE ->
+  trace_sound_o tg c (start c fresh root) evs -> trace_sound tg c (start c fresh root) evs.
+Proof. exact trace_sound_from_origin. Qed.
+Print Assumptions C47_trace_sound_from_origin.
